@@ -314,6 +314,26 @@ impl Monitor for C14 {
                 if cum[0] != 0 {
                     out.push(mk("cost-of-zero-jobs-nonzero", jobj! {"cost_of_jobs(0)"=>cum[0]}));
                 }
+                // the model must describe the cost sequence it was GIVEN: frames repeated cyclically, a
+                // constant, resp. the cumulative values inside the prefix
+                match &cost {
+                    Cost::Multiframe(v) => {
+                        if let Some(i) = (0..40).find(|i| items[*i] != v[*i % v.len()]) {
+                            out.push(mk("job_cost_iter-differs-from-the-given-frames-repeated", jobj! {"job"=>i+1,"yielded"=>items[i],"frame"=>v[i % v.len()]}));
+                        }
+                    }
+                    Cost::Scalar(c) => {
+                        if let Some(i) = (0..40).find(|i| items[*i] != *c) {
+                            out.push(mk("job_cost_iter-differs-from-the-given-wcet", jobj! {"job"=>i+1,"yielded"=>items[i],"wcet"=>*c}));
+                        }
+                    }
+                    Cost::Curve(v) | Cost::Extrap(v) => {
+                        if let Some(n) = (1..=v.len().min(40)).find(|n| cum[*n] != v[*n - 1]) {
+                            out.push(mk("cost_of_jobs-differs-from-the-given-prefix", jobj! {"n"=>n,"cost_of_jobs"=>cum[n],"given"=>v[n-1]}));
+                        }
+                    }
+                    Cost::FromIter(_) => {}
+                }
                 let mut acc = 0;
                 for n in 1..=40usize {
                     rep.count("consistency_points_checked", 1);
